@@ -37,7 +37,8 @@ Section Defs.
      NOT assumed: a leaf hash may be zero (Hash256::ZERO), exactly as in the Rust. *)
   Definition troot_inj : Prop := is_packed ek = false -> forall v w, etroot ek v = etroot ek w -> v = w.
 
-  Definition capacity_ok : Prop := 1 <= capN /\ capN <= 2 ^ 63.
+  (* no lower bound: List<T, U0> / Vector<T, U0> are legal types (their only value is the empty collection) *)
+  Definition capacity_ok : Prop := capN <= 2 ^ 63.
 
   (* ---------- update-map laws ---------- *)
   Definition has_key (u : U) (k : N) : Prop := uget M u k <> None.
